@@ -369,6 +369,29 @@ theorem init_AInv (capacity : Nat) : AInv (init capacity) := by
     fun _ => ⟨rfl, by simp [init]⟩, fun h => by simp [init] at h, by simp [init], by simp [init],
     by simp [init, pagesOf]⟩
 
+theorem session_AInv (capacity : Nat) (files : List Nat) (hn : files.Nodup) : AInv (session capacity files) := by
+  refine ⟨?_, ?_, rfl, by simp [session], by simp [session], by simp [session], rfl,
+    fun _ => ⟨rfl, by simp [session]⟩, fun h => by simp [session] at h, by simp [session], by simp [session],
+    by simp [session, pagesOf]⟩
+  · simpa [session, List.map_map, Function.comp_def] using hn
+  · intro d hd
+    simp only [session, List.mem_map] at hd
+    obtain ⟨f, _, rfl⟩ := hd
+    exact ⟨rfl, rfl⟩
+
+/-- Between rounds every destination is empty, so the state a later `initialize()` starts from is
+`session capacity (files of the existing destinations)`. -/
+theorem AInv.dests_idle {s : State} (h : AInv s) :
+    s.dests = (s.dests.map (·.file)).map (fun f => (⟨f, [], []⟩ : Dest)) ∧ (s.dests.map (·.file)).Nodup := by
+  refine ⟨?_, h.dnodup⟩
+  rw [List.map_map]
+  conv => lhs; rw [← List.map_id s.dests]
+  apply List.map_congr_left
+  intro d hd
+  obtain ⟨h1, h2⟩ := h.idle d hd
+  cases d
+  simp_all
+
 theorem pairwise_snoc {l : List Item} {x : Item} (h : l.Pairwise ThreadOrder) (hx : ∀ a ∈ l, ThreadOrder a x) :
     (l ++ [x]).Pairwise ThreadOrder := by
   refine List.pairwise_append.2 ⟨h, by simp, ?_⟩
@@ -674,6 +697,51 @@ theorem run_hist : ∀ (evs : List Ev) {s s' : State}, run s evs = some s' →
     · rename_i s1 hs1
       rw [run_hist es hr, step_hist e hs1]
       cases h : evItem e <;> simp [h]
+    · exact absurd hr (by simp)
+
+theorem step_batch {s s' : State} (e : Ev) (hs : step s e = some s') : s'.batch = s.batch := by
+  cases e with
+  | reserve tid file size iov =>
+    simp only [step, Option.some.injEq] at hs
+    subst hs; rfl
+  | publish idx =>
+    simp only [step] at hs
+    split at hs
+    · split at hs
+      · exact absurd hs (by simp)
+      · simp only [Option.some.injEq] at hs
+        subst hs; rfl
+    · exact absurd hs (by simp)
+  | close =>
+    simp only [step] at hs
+    split at hs
+    · exact absurd hs (by simp)
+    · simp only [Option.some.injEq] at hs
+      subst hs; rfl
+  | round n1 n2 fds =>
+    simp only [step] at hs
+    split at hs
+    · exact absurd hs (by simp)
+    · split at hs
+      · exact absurd hs (by simp)
+      · split at hs
+        · exact absurd hs (by simp)
+        · split at hs
+          · exact absurd hs (by simp)
+          · split at hs
+            · exact absurd hs (by simp)
+            · simp only [Option.some.injEq] at hs
+              subst hs; rfl
+
+theorem run_batch : ∀ (evs : List Ev) {s s' : State}, run s evs = some s' → s'.batch = s.batch
+  | [], s, s', hr => by
+    simp only [run, Option.some.injEq] at hr
+    subst hr; rfl
+  | e :: es, s, s', hr => by
+    simp only [run] at hr
+    split at hr
+    · rename_i s1 hs1
+      rw [run_batch es hr, step_batch e hs1]
     · exact absurd hr (by simp)
 
 end Babylon.Log.App
